@@ -16,11 +16,17 @@ enum Sym {
     ClientChallengeRight,
     ClientChallengeWrong,
     ClientChallengeEmpty,
+    /// the right digest minus its last byte / plus one byte
+    ClientChallengeTrunc,
+    ClientChallengeLong,
     ServerStatusOk,
     ServerStatusAlive,
     ServerChallenge,
     ServerAckRight,
     ServerAckWrong,
+    ServerAckEmpty,
+    ServerAckTrunc,
+    ServerAckLong,
     Empty,
     /// internal step of the accepting side (taken by the session after it answered Ok)
     StartChallenge,
@@ -33,11 +39,16 @@ const ALL: &[Sym] = &[
     Sym::ClientChallengeRight,
     Sym::ClientChallengeWrong,
     Sym::ClientChallengeEmpty,
+    Sym::ClientChallengeTrunc,
+    Sym::ClientChallengeLong,
     Sym::ServerStatusOk,
     Sym::ServerStatusAlive,
     Sym::ServerChallenge,
     Sym::ServerAckRight,
     Sym::ServerAckWrong,
+    Sym::ServerAckEmpty,
+    Sym::ServerAckTrunc,
+    Sym::ServerAckLong,
     Sym::Empty,
     Sym::StartChallenge,
 ];
@@ -98,12 +109,14 @@ fn server_sweep(ctx: &EnumCtx, depth: usize, peer_knows_cookie: bool, from_alive
                 Sym::Name => fsm.next(msg(a::authentication_message::Msg::Name(name())), COOKIE),
                 Sym::ClientStatusTrue => fsm.next(msg(a::authentication_message::Msg::ClientStatus(a::ClientStatus { status: true })), COOKIE),
                 Sym::ClientStatusFalse => fsm.next(msg(a::authentication_message::Msg::ClientStatus(a::ClientStatus { status: false })), COOKIE),
-                Sym::ClientChallengeRight | Sym::ClientChallengeWrong | Sym::ClientChallengeEmpty => {
+                Sym::ClientChallengeRight | Sym::ClientChallengeWrong | Sym::ClientChallengeEmpty | Sym::ClientChallengeTrunc | Sym::ClientChallengeLong => {
+                    let right = challenge_digest(peer_cookie, fsm.challenge().map(|c| c.0).unwrap_or(1));
                     let digest = match (s, fsm.challenge()) {
-                        (Sym::ClientChallengeRight, Some((ch, _))) => challenge_digest(peer_cookie, ch),
-                        (Sym::ClientChallengeRight, None) => challenge_digest(peer_cookie, 1),
+                        (Sym::ClientChallengeRight, _) => right,
                         (Sym::ClientChallengeWrong, Some((ch, _))) => challenge_digest(peer_cookie, ch.wrapping_add(1)),
                         (Sym::ClientChallengeWrong, None) => vec![1; 32],
+                        (Sym::ClientChallengeTrunc, _) => right[..right.len() - 1].to_vec(),
+                        (Sym::ClientChallengeLong, _) => right.iter().copied().chain([0u8]).collect(),
                         _ => vec![],
                     };
                     fsm.next(msg(a::authentication_message::Msg::ClientChallenge(a::ChallengeReply { challenge: 99, digest })), COOKIE)
@@ -111,7 +124,15 @@ fn server_sweep(ctx: &EnumCtx, depth: usize, peer_knows_cookie: bool, from_alive
                 Sym::ServerStatusOk => fsm.next(msg(a::authentication_message::Msg::ServerStatus(a::ServerStatus { status: 0 })), COOKIE),
                 Sym::ServerStatusAlive => fsm.next(msg(a::authentication_message::Msg::ServerStatus(a::ServerStatus { status: 4 })), COOKIE),
                 Sym::ServerChallenge => fsm.next(msg(a::authentication_message::Msg::ServerChallenge(a::Challenge { name: "x".into(), flags: None, challenge: 5, connection_string: "c".into() })), COOKIE),
-                Sym::ServerAckRight | Sym::ServerAckWrong => fsm.next(msg(a::authentication_message::Msg::ServerAck(a::ChallengeAck { digest: vec![2; 32] })), COOKIE),
+                Sym::ServerAckRight | Sym::ServerAckWrong | Sym::ServerAckEmpty | Sym::ServerAckTrunc | Sym::ServerAckLong => {
+                    let digest = match s {
+                        Sym::ServerAckEmpty => vec![],
+                        Sym::ServerAckTrunc => vec![2; 31],
+                        Sym::ServerAckLong => vec![2; 33],
+                        _ => vec![2; 32],
+                    };
+                    fsm.next(msg(a::authentication_message::Msg::ServerAck(a::ChallengeAck { digest })), COOKIE)
+                }
                 Sym::Empty => fsm.next(a::AuthenticationMessage { msg: None }, COOKIE),
             };
             model = server_model(model, *s, peer_knows_cookie);
@@ -180,16 +201,26 @@ fn client_sweep(ctx: &EnumCtx, depth: usize, peer_knows_cookie: bool) -> EnumRes
                 Sym::Name => fsm.next(msg(a::authentication_message::Msg::Name(name())), COOKIE),
                 Sym::ClientStatusTrue => fsm.next(msg(a::authentication_message::Msg::ClientStatus(a::ClientStatus { status: true })), COOKIE),
                 Sym::ClientStatusFalse => fsm.next(msg(a::authentication_message::Msg::ClientStatus(a::ClientStatus { status: false })), COOKIE),
-                Sym::ClientChallengeRight | Sym::ClientChallengeWrong | Sym::ClientChallengeEmpty => {
-                    fsm.next(msg(a::authentication_message::Msg::ClientChallenge(a::ChallengeReply { challenge: 1, digest: vec![3; 32] })), COOKIE)
+                Sym::ClientChallengeRight | Sym::ClientChallengeWrong | Sym::ClientChallengeEmpty | Sym::ClientChallengeTrunc | Sym::ClientChallengeLong => {
+                    let digest = match s {
+                        Sym::ClientChallengeEmpty => vec![],
+                        Sym::ClientChallengeTrunc => vec![3; 31],
+                        Sym::ClientChallengeLong => vec![3; 33],
+                        _ => vec![3; 32],
+                    };
+                    fsm.next(msg(a::authentication_message::Msg::ClientChallenge(a::ChallengeReply { challenge: 1, digest })), COOKIE)
                 }
                 Sym::ServerStatusOk => fsm.next(msg(a::authentication_message::Msg::ServerStatus(a::ServerStatus { status: 0 })), COOKIE),
                 Sym::ServerStatusAlive => fsm.next(msg(a::authentication_message::Msg::ServerStatus(a::ServerStatus { status: 4 })), COOKIE),
                 Sym::ServerChallenge => fsm.next(msg(a::authentication_message::Msg::ServerChallenge(a::Challenge { name: "srv@host".into(), flags: None, challenge: 5, connection_string: "c".into() })), COOKIE),
-                Sym::ServerAckRight | Sym::ServerAckWrong => {
-                    let digest = match (s, fsm.challenge()) {
-                        (Sym::ServerAckRight, Some((_, ours, _))) => challenge_digest(peer_cookie, ours),
-                        (Sym::ServerAckWrong, Some((_, ours, _))) => challenge_digest(peer_cookie, ours.wrapping_add(1)),
+                Sym::ServerAckRight | Sym::ServerAckWrong | Sym::ServerAckEmpty | Sym::ServerAckTrunc | Sym::ServerAckLong => {
+                    let right = fsm.challenge().map(|(_, ours, _)| challenge_digest(peer_cookie, ours));
+                    let digest = match (s, right) {
+                        (Sym::ServerAckRight, Some(r)) => r,
+                        (Sym::ServerAckWrong, Some(_)) => challenge_digest(peer_cookie, fsm.challenge().unwrap().1.wrapping_add(1)),
+                        (Sym::ServerAckTrunc, Some(r)) => r[..r.len() - 1].to_vec(),
+                        (Sym::ServerAckLong, Some(r)) => r.iter().copied().chain([0u8]).collect(),
+                        (Sym::ServerAckEmpty, _) => vec![],
                         _ => vec![9; 32],
                     };
                     fsm.next(msg(a::authentication_message::Msg::ServerAck(a::ChallengeAck { digest })), COOKIE)
@@ -253,7 +284,7 @@ pub fn plan(tier: &str) -> Plan {
     Plan {
         property: "C17",
         units,
-        rule: "explicit enumeration of every input sequence up to the stated depth over 13 symbols (every authentication message kind with right / wrong / empty digests, the empty message, the internal start-challenge step) through the real {Server,Client}AuthenticationProcess::next against a reference table of the handshake (Ok only along the honest path with the right cookie, Close absorbing, anything out of order closes), with a peer that knows the cookie and one that does not; plus real NodeServer sessions fed every frame sequence up to the stated length from a 14-symbol alphabet before / instead of the handshake, then the honest handshake followed by casts and calls to advertised and unadvertised pids; non-trivial = sequence with at least two different symbols".into(),
+        rule: "explicit enumeration of every input sequence up to the stated depth over 18 symbols (every authentication message kind with right / wrong / empty / truncated / over-long digests, the empty message, the internal start-challenge step) through the real {Server,Client}AuthenticationProcess::next against a reference table of the handshake (Ok only along the honest path with the right cookie, Close absorbing, anything out of order closes), with a peer that knows the cookie and one that does not; plus real NodeServer sessions fed every frame sequence up to the stated length from a 14-symbol alphabet before / instead of the handshake, then the honest handshake followed by casts and calls to advertised and unadvertised pids; non-trivial = sequence with at least two different symbols".into(),
         assumptions: vec![
             "SHA-256 digests are not inverted: a peer without the cookie is modelled as computing digests with another cookie".into(),
             "session-level runs use the default schedule plus deviation bound 1 (the session's actors are driven to quiescence after every frame)".into(),
